@@ -313,7 +313,12 @@ def write_evidence(ctx: Ctx, mod) -> None:
         "wall_s": round(time.time() - ctx.t0, 2),
         "violations": len(ctx.violations),
     }
-    with open(os.path.join(VERIF, "evidence", f"{ctx.pid}.json"), "w") as f:
+    evdir = os.path.join(VERIF, "evidence")
+    if os.environ.get("VERIF_REPO") and os.path.realpath(os.environ["VERIF_REPO"]) != os.path.realpath("/repo"):
+        # run against a scratch copy (mutation testing): do not overwrite the committed evidence
+        evdir = os.path.join(OUT, "evidence_scratch")
+        os.makedirs(evdir, exist_ok=True)
+    with open(os.path.join(evdir, f"{ctx.pid}.json"), "w") as f:
         json.dump(ev, f, indent=1, default=str)
 
 
